@@ -12,7 +12,8 @@
    over ([orders]); the theorems hold for all of them. *)
 From Coq Require Import List.
 Import ListNotations.
-From Oras Require Import Model.OciIndex Proofs.OciIndex Model.TarFS Proofs.TarFS.
+From Oras Require Import Base.Prelude Generated.GC08 Model.OciIndex Proofs.OciIndex Model.TarFS Proofs.TarFS Model.OciConc Proofs.OciConc Proofs.OciFuel Model.OciLocks Proofs.OciLocks.
+Local Open Scope nat_scope.
 
 (* AutoSaveIndex on: after EVERY history of Push/Tag/Untag/Delete/GC/SaveIndex/read-write
    reopen (any AutoGC setting, any map orders), the store reopened from the directory
@@ -162,3 +163,228 @@ Example C08_hypotheses_satisfiable :
   obs_preds 3 ex_succs s 1 = [2] /\ obs_preds 3 ex_succs s 0 = [1] /\
   obs_preds 3 ex_succs (reopen 3 ex_mf ex_succs s) 0 = [1] /\ disk_valid s = true.
 Proof. exact example_history. Qed.
+
+
+(* ================= concurrent operations (Model/OciConc.v) =================
+   The sequential theorems above speak of whole operations; the store runs them under a
+   RWMutex (Push/Tag/Untag/SaveIndex shared, Delete/GC exclusive) with saveIndex serialised by
+   indexLock.  The two transition systems of Model/OciConc.v interleave the atomic steps; the
+   ORDER of the steps inside saveIndex / Tag / Delete / Push is read from the Go sources by
+   the translator (Generated/GC08.v, kind callseq). *)
+
+(* the programs read from the sources are the well-locked ones, and every public operation
+   takes the store lock first *)
+Theorem C08_locks_as_in_the_sources :
+  save_prog = [SLock; SSnap; SWrite; SUnlock] /\ tag_prog = [GRLock; GExists; GReg; GRUnlock] /\
+  del_prog = [DWLock; DUntag; DRemove; DWUnlock] /\ push_prog = [PRLock; PCreate; PRUnlock] /\
+  hd [] c08_calls_Untag = b "s.sync.RLock" /\ hd [] c08_calls_SaveIndex = b "s.sync.RLock" /\
+  hd [] c08_calls_Push = b "s.sync.RLock" /\ hd [] c08_calls_Tag = b "s.sync.RLock" /\
+  hd [] c08_calls_Delete = b "s.sync.Lock" /\ hd [] c08_calls_GC = b "s.sync.Lock".
+Proof. exact (conj save_prog_good (conj tag_prog_good (conj del_prog_good (conj push_prog_good locks_first)))). Qed.
+Print Assumptions C08_locks_as_in_the_sources.
+
+(* more of the sources pinned: GC's sweep checks and the known algorithms (the kind-level model
+   of stray files agrees with them), the order of loadIndex, Store.tag, delete and GC *)
+Theorem C08_sweep_and_orders_as_in_the_sources :
+  (c08_calls_GC_sweep = [b "isKnownAlgorithm"; b "blobDigest.Validate"; b "reachableNodes.Contains"; b "os.Remove"] /\
+   c08_known_algorithms = ["digest.SHA256"; "digest.SHA512"; "digest.SHA384"]%string /\
+   forall k, stray_swept (fst (stray_of_kind k)) (snd (stray_of_kind k)) = gc_sweeps_stray k) /\
+  (c08_calls_loadIndex = [b "tagger.Tag"; b "deleteAnnotationRefName"; b "tagger.Tag"; b "graph.IndexAll"] /\
+   c08_calls_tag = [b "s.tagResolver.Tag"; b "s.tagResolver.Tag"; b "s.saveIndex"] /\
+   c08_calls_delete = [b "s.tagResolver.Untag"; b "s.graph.Remove"; b "s.saveIndex"; b "s.storage.Delete"] /\
+   c08_calls_GC = [b "s.sync.Lock"; b "s.gcIndex"; b "s.saveIndex"; b "os.Remove"]).
+Proof. exact (conj gc_sweep_as_in_the_sources load_and_delete_order_as_in_the_sources). Qed.
+Print Assumptions C08_sweep_and_orders_as_in_the_sources.
+
+(* any number of threads, each running any list of index-saving operations (registrations in
+   the resolver followed by saveIndex as in the sources), under EVERY schedule: once all have
+   returned, index.json is saveIndex of the live resolver map, i.e. its projection *)
+Theorem C08_concurrent_saves_index_current :
+  forall (s0 : sstate rmap (list desc)) (sched : list (nat * (list nat * list nat))),
+    let proj := fun (c : list nat * list nat) (v : rmap) => save_index (fst c) (snd c) v in
+    s_init rmap (list desc) (list nat * list nat) proj save_prog s0 ->
+    let s := run_sched rmap (list desc) (list nat * list nat) proj sched s0 in
+    quiescent rmap (list desc) s ->
+    (exists c1 c2, disk _ _ s = save_index c1 c2 (live _ _ s)) /\
+    (IxInv (live _ _ s) -> DiskOK (disk _ _ s) (live _ _ s)).
+Proof. exact concurrent_saves_index_current. Qed.
+Print Assumptions C08_concurrent_saves_index_current.
+
+(* the same without a hypothesis on the reached state: threads running any lists of Tag (digest
+   entry first, then the tag: two registrations), Tag-by-digest / manifest Push, Untag and
+   SaveIndex from a store at rest: the store invariant of the resolver map holds at every moment
+   of every schedule, and at quiescence index.json is its order-independent projection, from
+   which loadIndex rebuilds it (C08_save_is_projection / reopen theorems above) *)
+Theorem C08_concurrent_store_index_current :
+  forall (s0 : sstate rmap (list desc)) (sched : list (nat * (list nat * list nat))),
+    let proj := fun (c : list nat * list nat) (v : rmap) => save_index (fst c) (snd c) v in
+    IxInv (live _ _ s0) -> (exists c, disk _ _ s0 = proj c (live _ _ s0)) -> ilock _ _ s0 = None ->
+    (forall i, exists ops, ths _ _ s0 i = mkTh rmap [] [] None (map cop_thread_op ops)) ->
+    let s := run_sched rmap (list desc) (list nat * list nat) proj sched s0 in
+    IxInv (live _ _ s) /\ (quiescent rmap (list desc) s -> DiskOK (disk _ _ s) (live _ _ s)).
+Proof. exact concurrent_store_index_current. Qed.
+Print Assumptions C08_concurrent_store_index_current.
+
+(* any number of Tag / Delete / Push calls on the same content under every schedule: once all
+   have returned, a registered reference points to content that exists *)
+Theorem C08_concurrent_tag_delete_valid :
+  forall (s0 : gstate) (sched : list nat),
+    g_init tag_prog del_prog push_prog s0 ->
+    let s := g_run sched s0 in g_quiescent s -> g_valid s.
+Proof. exact concurrent_tag_delete_valid. Qed.
+Print Assumptions C08_concurrent_tag_delete_valid.
+
+(* the snapshot taken before indexLock (call order Map, Lock, write): a schedule of two
+   operations after which index.json lacks a live reference *)
+Theorem C08_concurrent_refuted_snapshot_before_lock :
+  save_prog_of [b "s.tagResolver.Map"; b "s.indexLock.Lock"; b "s.writeIndexFile"] = bad_save /\
+  s_init (list nat) (list nat) (list nat) (fun _ v => v) bad_save ex_s0 /\
+  (let s := run_sched (list nat) (list nat) (list nat) (fun _ v => v) ex_sched ex_s0 in
+   quiescent (list nat) (list nat) s /\ live _ _ s = [2; 1] /\ disk _ _ s = [1])%nat.
+Proof. exact (conj bad_order_program save_quiescent_refuted_snapshot_before_lock). Qed.
+Print Assumptions C08_concurrent_refuted_snapshot_before_lock.
+
+(* Exists checked before the read lock (call order validate, Exists, RLock, tag): a Tag racing a
+   Delete leaves a reference to content that is gone *)
+Theorem C08_concurrent_refuted_exists_before_lock :
+  tag_prog_of [b "validateReference"; b "s.storage.Exists"; b "s.sync.RLock"; b "s.graph.Index"; b "s.tag"] = bad_tag /\
+  g_init bad_tag good_del good_push exg_s0 /\
+  (let s := g_run [0; 1; 1; 1; 1; 0; 0; 0]%nat exg_s0 in
+   g_quiescent s /\ refs s = 1%nat /\ blob s = false).
+Proof. exact (conj bad_tag_program tag_delete_refuted_exists_before_lock). Qed.
+Print Assumptions C08_concurrent_refuted_exists_before_lock.
+
+Example C08_concurrent_hypotheses_satisfiable :
+  let proj := fun (c : list nat * list nat) (v : rmap) => save_index (fst c) (snd c) v in
+  s_init rmap (list desc) (list nat * list nat) proj save_prog exc_s0 /\
+  (let s := run_sched rmap (list desc) _ proj
+              (map (fun i => (i, ([1], [0])%nat)) [0; 1; 2; 0; 2; 1; 1; 0; 2; 2; 2; 1; 0; 0; 1; 0; 0; 1; 1]%nat) exc_s0 in
+   live _ _ s = [(RTag 0, plain 1); (RDig 1, plain 1)] /\
+   disk _ _ s = [mkDesc 1 0 (Some (RTag 0))] /\ ilock _ _ s = None).
+Proof. exact concurrent_example. Qed.
+
+
+(* ================= all operations under both locks (Model/OciLocks.v) =================
+   Tag, Untag, SaveIndex, Push (shared store lock), Delete and GC (exclusive) as programs of atomic
+   steps on the resolver map, index.json, the blob files, the RWMutex and indexLock. *)
+
+(* safety of EVERY program that respects the lock discipline ([check]: store lock held around
+   every access, Exists/Push seen under the lock before a reference to that content is
+   registered, snapshot and write under indexLock, references dropped and saved before a blob
+   is removed under the exclusive lock): under every schedule, at quiescence index.json is
+   saveIndex of the live map, every live reference points to a blob file, no lock is held *)
+Theorem C08_lock_discipline_sufficient :
+  forall (s0 : lstate) (sched : list (nat * (list nat * list nat))),
+    l_init s0 -> IxInv (ll_live s0) -> let s := l_run sched s0 in
+    IxInv (ll_live s) /\
+    (l_quiescent s ->
+     (exists c, ll_disk s = save_index (fst c) (snd c) (ll_live s)) /\ DiskOK (ll_disk s) (ll_live s) /\
+     refs_valid s /\ ll_ilock s = None).
+Proof. exact locks_quiescent. Qed.
+Print Assumptions C08_lock_discipline_sufficient.
+
+(* the programs of the real operations, assembled from the call sequences the translator reads
+   from content/oci/oci.go, and that they respect the discipline *)
+Theorem C08_programs_respect_lock_discipline :
+  ((forall d t, prog_tag d t = [KRLock; KExists (d_node d); KReg (RegDig d); KReg (RegTag t d);
+                                KSave SLock; KSave SSnap; KSave SWrite; KSave SUnlock; KRUnlock]) /\
+   (forall t, prog_untag t = [KRLock; KReg (RegUntag t); KSave SLock; KSave SSnap; KSave SWrite; KSave SUnlock; KRUnlock]) /\
+   prog_saveindex = [KRLock; KSave SLock; KSave SSnap; KSave SWrite; KSave SUnlock; KRUnlock] /\
+   (forall k, prog_push k true = [KRLock; KCreate k; KReg (RegDig (plain k));
+                                  KSave SLock; KSave SSnap; KSave SWrite; KSave SUnlock; KRUnlock]) /\
+   (forall k, prog_push k false = [KRLock; KCreate k; KRUnlock]) /\
+   (forall k, prog_delete k = [KWLock; KRegDelete k; KSave SLock; KSave SSnap; KSave SWrite; KSave SUnlock;
+                               KRemove k; KWUnlock]) /\
+   (forall g, prog_gc g = [KWLock; KRegGC g; KSave SLock; KSave SSnap; KSave SWrite; KSave SUnlock;
+                           KSweep g; KWUnlock])) /\
+  forall ops, check ts0 (prog_of_lops ops) = true.
+Proof. exact (conj programs_explicit lops_checked). Qed.
+Print Assumptions C08_programs_respect_lock_discipline.
+
+(* hence: any number of threads running any lists of Tag / Untag / SaveIndex / Push / Delete / GC
+   calls on a store at rest (GC call g keeps the references and blobs of the nodes [ll_keep s g],
+   any family of sets), every schedule *)
+Theorem C08_store_operations_quiescent :
+  forall (s0 : lstate) (sched : list (nat * (list nat * list nat))),
+    IxInv (ll_live s0) ->
+    (exists c, ll_disk s0 = save_index (fst c) (snd c) (ll_live s0)) -> refs_valid s0 -> ll_ilock s0 = None ->
+    (forall i, i < ll_n s0 -> exists ops, ll_ths s0 i = mkLT (prog_of_lops ops) ts0 None true) ->
+    let s := l_run sched s0 in
+    IxInv (ll_live s) /\
+    (l_quiescent s ->
+     (exists c, ll_disk s = save_index (fst c) (snd c) (ll_live s)) /\ DiskOK (ll_disk s) (ll_live s) /\
+     refs_valid s /\ ll_ilock s = None).
+Proof. exact store_operations_quiescent. Qed.
+Print Assumptions C08_store_operations_quiescent.
+
+(* ... and the store reopened from that index.json resolves every tag to its live descriptor
+   (ref-name annotation set) and has a digest entry exactly where the live store has one *)
+Theorem C08_store_operations_reload :
+  forall (s0 : lstate) (sched : list (nat * (list nat * list nat))),
+    IxInv (ll_live s0) ->
+    (exists c, ll_disk s0 = save_index (fst c) (snd c) (ll_live s0)) -> refs_valid s0 -> ll_ilock s0 = None ->
+    (forall i, i < ll_n s0 -> exists ops, ll_ths s0 i = mkLT (prog_of_lops ops) ts0 None true) ->
+    let s := l_run sched s0 in
+    l_quiescent s ->
+    let ix' := r_index (fold_left load_res (ll_disk s) res_empty) in
+    (forall t, lookup (RTag t) ix' = option_map (fun d => with_ref d (RTag t)) (lookup (RTag t) (ll_live s))) /\
+    (forall k, lookup (RDig k) ix' <> None <-> lookup (RDig k) (ll_live s) <> None).
+Proof. exact store_operations_reload. Qed.
+Print Assumptions C08_store_operations_reload.
+
+(* the lock placements of the two seeded changes are rejected by the checker, and the second one
+   (Exists before RLock) run against a Delete ends with a tag, in memory and in index.json, on
+   content whose blob file is gone *)
+Theorem C08_seeded_lock_orders_rejected :
+  (check ts0 (KRLock :: map KSave [SSnap; SLock; SWrite; SUnlock] ++ [KRUnlock]) = false /\
+   check ts0 [KExists 0; KRLock; KReg (RegDig (plain 0)); KSave SLock; KSave SSnap; KSave SWrite; KSave SUnlock; KRUnlock] = false) /\
+  (let s := l_run (map (fun i => (i, ([], []))) [0; 1; 1; 1; 1; 1; 1; 1; 1; 0; 0; 0; 0; 0; 0; 0; 0]) exl_s0 in
+   l_quiescent s /\ ll_blobs s = [] /\ lookup (RTag 5) (ll_live s) = Some (plain 0) /\
+   ll_disk s = [mkDesc 0 0 (Some (RTag 5))]).
+Proof. exact (conj seeded_orders_rejected unlocked_exists_refuted). Qed.
+Print Assumptions C08_seeded_lock_orders_rejected.
+
+(* ================= the fuel of the model is sufficient (audit F7) =================
+   On a universe whose successor and subject links point to smaller node ids (content
+   addressing; the harness builds its DAGs bottom-up) IndexAll and the subject-chain walk of GC
+   do not depend on their fuel above N, and after any history on nodes below N Delete's queue
+   loop never stops for lack of fuel: on such universes the fuelled model is the loop of the Go
+   code.  (The rounds of GC's referrer pass: every continued round keeps one more entry, so S |refMap| rounds suffice
+   for every order: C08_fuel_gc_rounds_sufficient.) *)
+Theorem C08_fuel_index_all_sufficient :
+  forall (N : nat) (mf : nat -> bool) (succs : nat -> list nat),
+    (forall k c, In c (succs k) -> c < k) ->
+    forall bl root g fuel, root < N -> N < fuel ->
+      index_all N mf succs bl root g = visit mf succs fuel (fun k => mem k bl) root g.
+Proof. exact index_all_fuel_sufficient. Qed.
+Print Assumptions C08_fuel_index_all_sufficient.
+
+Theorem C08_fuel_subject_chain_sufficient :
+  forall (N : nat) (mf : nat -> bool) (subj : nat -> option nat) (sk : nat -> bool),
+    (forall k c, subj k = Some c -> c < k) ->
+    forall bl g cur fuel, cur < N -> N < fuel ->
+      chain_hits mf subj sk (S N) bl g cur = chain_hits mf subj sk fuel bl g cur.
+Proof. exact chain_hits_fuel_sufficient. Qed.
+Print Assumptions C08_fuel_subject_chain_sufficient.
+
+Theorem C08_fuel_delete_sufficient :
+  forall (N : nat) (mf : nat -> bool) (succs : nat -> list nat) (subj : nat -> option nat)
+         (sk bad : nat -> bool) (fF2 fA fF1 fH fR : bool) (cfg : config) (h : list (op * orders))
+         (o : orders) (k : nat),
+    Forall (fun oo => op_below N (fst oo)) h ->
+    let s := run N mf succs subj sk bad fF2 fA fF1 fH fR cfg h store_empty in
+    snd (st_delete N mf succs subj fH cfg o k s) <> ROutOfFuel.
+Proof. exact delete_fuel_sufficient. Qed.
+Print Assumptions C08_fuel_delete_sufficient.
+
+Theorem C08_fuel_gc_rounds_sufficient :
+  forall (N : nat) (mf : nat -> bool) (succs : nat -> list nat) (subj : nat -> option nat) (sk : nat -> bool)
+         bl m os a fuel,
+    length m < fuel ->
+    gc_rounds N mf succs subj sk (S (length m)) bl m os a = gc_rounds N mf succs subj sk fuel bl m os a.
+Proof. exact gc_rounds_fuel_sufficient. Qed.
+Print Assumptions C08_fuel_gc_rounds_sufficient.
+
+Example C08_fuel_hypotheses_satisfiable :
+  (forall k c, In c (ex_succs k) -> c < k) /\ Forall (fun oo => op_below 3 (fst oo)) ex_hist.
+Proof. exact fuel_example. Qed.
